@@ -20,8 +20,9 @@ def _unit(maxn):
         (r"for \(auto c : r\.root->children\(\)\)", "for (size_t ci = 0; ci < NCHILD[r_root]; ci++)", 1, "container-api", "range-for over the children list"),
         (r"bool is_signed = edges\.find\(c->pred\(\)\) != edges\.end\(\);", "size_t c = CHILD[r_root][ci]; bool is_signed = (vp_S >> PRED[c]) & 1UL;", 1, "container-api",
          "witness membership of the child's predecessor edge"),
-        (r"stack\.emplace\(SPSubtree<Graph, WeightMap, bool> \{ static_cast<bool>\(r\.info \^ is_signed\), c \}\);",
-         "__CPROVER_assert(sp < 2 * MAXN, \"VP_BOUND stack capacity\"); SINFO[sp] = (bool)(r_info ^ is_signed); SROOT[sp] = c; sp++;", 1, "container-api", "push (parity, child)"),
+        (r"stack\.emplace\(SPSubtree<Graph, WeightMap, bool> \{ static_cast<bool>\(([^{};]*?)\), c \}\);",
+         lambda m: "__CPROVER_assert(sp < 2 * MAXN, \"VP_BOUND stack capacity\"); SINFO[sp] = (bool)(%s); SROOT[sp] = c; sp++;" % m.group(1).replace("r.info", "r_info"), 1,
+         "container-api", "push (expression, child); r.info -> r_info"),
     ], log)
     fn = r"""
 #include <stddef.h>
